@@ -51,6 +51,11 @@ def shards(tier):
             out.append({"part": "one", "kind": kind, "tier": tier, "n": n, "first": None})
     # strings that differ only in a trailing NUL (fixed-width NumPy strings cannot tell them apart)
     out.append({"part": "one", "kind": "str", "tier": tier, "n": 3, "first": None, "alpha": [None, "a", "a\x00", "b"]})
+    # particular values: text that looks like a missing marker or differs in blanks only, dates outside the nanosecond
+    # range, the ends of the int64 range
+    out.append({"part": "one", "kind": "str", "tier": tier, "n": 3, "first": None, "alpha": [None, "nan", "None", "NA", " a", "a ", "a"]})
+    out.append({"part": "one", "kind": "D", "tier": tier, "n": 3, "first": None, "alpha": [None, "0001-01-01", "9999-12-31", "1677-09-21", "2262-04-12"]})
+    out.append({"part": "one", "kind": "i8", "tier": tier, "n": 3, "first": None, "alpha": [0, -9223372036854775808, 9223372036854775807, -1]})
     # object keys whose order as text differs from their order as values (10 < 2 and -3 > -20 as text)
     out.append({"part": "one", "kind": "obj", "tier": tier, "n": 3, "first": None, "alpha": [None, 2, 10, -3, -20]})
     out.append({"part": "one", "kind": "obj", "tier": tier, "n": 3, "first": None, "alpha": [None, 1, 1.0, True, 2, 0.5]})
